@@ -158,6 +158,7 @@ def run(tier, replay):
         else:
             others.append(x)
     month_lines = [months[k] for k in sorted(months)]
+    others.sort(key=lambda x: 0 if x.get("k") == "punres" else 1)
     vectors = clock + month_lines + others
     data = "\n".join(json.dumps(x, separators=(",", ":")) for x in vectors) + "\n"
 
@@ -181,6 +182,9 @@ def run(tier, replay):
         ctx.add_part(name, evaluations=p["evaluations"], nontrivial=p["nontrivial"], mismatches=p["mismatches"])
         for x in p["samples"]:
             ctx.sample(x, limit=14)
+        if p.get("drift"):
+            ctx.drift("C18 beyond the statement: " + name, "%d case(s); first: %s" % (p["drift"], json.dumps(p["drift_first"][0], ensure_ascii=False)[:500]),
+                      {"kind": "codec-drift", "part": name, "first": p["drift_first"]})
         if p["mismatches"]:
             by_dev = {}
             for f in p["first"]:
@@ -196,8 +200,12 @@ def run(tier, replay):
     ctx.cov["evaluations"] += len(recs)
     ctx.cov["traces_validated_against_impl"] += len(recs)
     ctx.add_part("random_executions", records=len(recs), by_kind={k: sum(1 for r in recs if r["k"] == k) for k in ("sha1", "b64e", "b64d", "pe", "pd", "date")})
+    for pr in t.prints:
+        if isinstance(pr, dict) and pr.get("drift"):
+            ctx.drift("C18 beyond the statement: random executions", "%d percent-encoding(s) are equivalent to, but not, the normal form; first: %s"
+                      % (len(pr["drift"]), json.dumps(pr["drift"][0])[:400]), {"kind": "codec-trace-drift", "records": pr["drift"]})
     if t.violation:
-        rej = t.prints[-1]["rejected"] if t.prints and "rejected" in t.prints[-1] else []
+        rej = next((pr["rejected"] for pr in reversed(t.prints) if isinstance(pr, dict) and "rejected" in pr), [])
         ctx.violation("random executions rejected by Trace_Codec (%s); first: %s" % (t.violated_name, json.dumps(rej[:1])[:600]),
                       {"kind": "codec-trace", "rejected": rej})
     elif t.distinct < len(recs):
@@ -237,7 +245,7 @@ def run(tier, replay):
     small[idx] = dict(small[idx], b=[small[idx]["b"][0] ^ 1] + small[idx]["b"][1:])
     vlib.write_lines(tr, small)
     t2 = run_tlc("Trace_Codec.tla", "Trace_Codec.cfg", D, workers=1, env=dict(JVM, TRACE=tr), timeout=1500, work_id="c18-trace2", deque=True)
-    if t2.violation != "invariant" or not t2.prints or len(t2.prints[-1].get("rejected", [])) != 1:
+    if t2.violation != "invariant" or not t2.prints or len(next((pr["rejected"] for pr in reversed(t2.prints) if "rejected" in pr), [])) != 1:
         raise vlib.ToolError("binding self-test: corrupted trace record was not rejected")
     ctx.add_part("binding_self_test", corrupted_vectors_rejected=list(got), corrupted_trace_record_rejected=True)
     os.remove(tr)
